@@ -69,4 +69,7 @@ example : validate facts { enabled := true, minV := tls11, maxV := tls13, client
 /-- regenerated from the source on every run: the client-CA pool is built from an empty pool plus the configured CAFile -/
 theorem gen_client_ca_pool : Gen.clientCAPoolStartsEmpty = true := by decide
 
+/-- every listener start builds its tls.Config — client-CA pool included — from the configured files -/
+theorem gen_listen_builds_config : Gen.listenBuildsTLSConfigAfresh = true := by decide
+
 end Props.C30
